@@ -13,6 +13,7 @@ for d in seeded/C*-m*; do
     if echo "$res" | grep -q "PATCH DOES NOT APPLY"; then r="patch does not apply on current HEAD";
     elif echo "$res" | grep -q "^VIOLATION.*no-failing-input-found" && ! echo "$res" | grep "^VIOLATION" | grep -qv "no-failing-input-found"; then r="caught (tie broken, no-failing-input-found)";
     elif echo "$res" | grep -q "^VIOLATION"; then r="caught, concrete failing input";
+    elif echo "$res" | tail -1 | grep -q "violations=[1-9]"; then r="caught, concrete failing input";
     else r="NOT caught: $(echo "$res" | tail -1 | cut -c1-100)"; fi
     echo "| $id | $chk | $r |" >> $out
     echo "$id $chk $r"
